@@ -1,5 +1,7 @@
 # coding: utf-8
 """C03 — ambiguous or incomplete module sets never produce a plasmid."""
+EXTRA_OBLIGATION_FILES = ("Props/C03_src.v",)
+
 import itertools
 
 from harness import common, gens, pattern
